@@ -31,15 +31,34 @@ import collections
 from vlib.runner import Check, ShardResult, Failure, derive_seed
 from vlib import hyp, simplab
 from vlib.refeval import S, Env, mask, Undefined, Uninterpreted
-from vlib.timeout import call_with_limit, TimeLimit
+from vlib.timeout import TimeLimit
 
-LIMIT_S = 20
+LIMIT_S = 10
 RANDOM_ARCH = "x86_32"
 RANDOM_ARCHS = ["x86_32", "aarch64l", "x86_32", "msp430"]     # register vocabulary of the random IR, by shard
 LIFT_ARCHS = ["x86_32", "x86_64", "x86_16", "arml", "armtl", "aarch64l", "mips32b", "ppc32b", "msp430", "mepb"]
 MAX_LIFT_BLOCKS = 12
 
+ATTRIB_MAX = 40
 _state = {}
+_attrib_count = collections.Counter()
+
+
+def call_with_limit(seconds, fn, *args, **kwargs):
+    """vlib.timeout.call_with_limit with a repeating timer: an exception raised by the signal handler inside a
+    garbage-collector / weakref callback is swallowed by the interpreter, so the alarm fires again every second
+    until it lands in ordinary code."""
+    import signal
+
+    def handler(signum, frame):
+        raise TimeLimit()
+    old = signal.signal(signal.SIGALRM, handler)
+    signal.setitimer(signal.ITIMER_REAL, seconds, 1.0)
+    try:
+        return fn(*args, **kwargs)
+    finally:
+        signal.setitimer(signal.ITIMER_REAL, 0)
+        signal.signal(signal.SIGALRM, old)
 
 
 class Drop(Exception):
@@ -348,6 +367,9 @@ def judge(case, info, symbolic, cfg, head, st0, regs, tag, attribute, addrsize, 
         except TimeLimit:
             simp.cache.clear()
             raise Drop("time-limit")
+        except MemoryError:
+            simp.cache.clear()
+            raise Drop("memory-limit")
         except Exception as ex:
             return [("exception:%s@%s" % (type(ex).__name__, _where(ex)), "engine raised %r" % ex)]
         nb = len(eng.blocks_run)
@@ -378,7 +400,11 @@ def judge(case, info, symbolic, cfg, head, st0, regs, tag, attribute, addrsize, 
     if not fails:
         return [], info
     prefix = tag
-    if attribute:
+    # attribution costs two more engine runs: at most ATTRIB_MAX per process and 3 per (stratum, what differs)
+    akey = (tag.split(":")[0], tuple(sorted(k for k, _ in fails)))
+    _attrib_count[akey] += 1
+    _attrib_count["total"] += 1
+    if attribute and (attribute == "always" or (_attrib_count[akey] <= 3 and _attrib_count["total"] <= ATTRIB_MAX)):
         rule = attribute_simplifier(symbolic, st0)
         if rule:
             prefix = "via-simplifier:" + rule
@@ -624,8 +650,14 @@ class C12(Check):
         return jobs
 
     def run_shard(self, tier, seed, shard, nshards):
+        import resource
         res = ShardResult()
         cnt = [0]
+        # safety net (never reached on a sound engine): an engine that loops builds huge expressions
+        soft, hard = resource.getrlimit(resource.RLIMIT_AS)
+        lim = 6 << 30
+        if hard == resource.RLIM_INFINITY or hard > lim:
+            resource.setrlimit(resource.RLIMIT_AS, (lim, hard))
 
         def one(case):
             cnt[0] += 1
@@ -661,7 +693,7 @@ class C12(Check):
 
     def replay(self, case):
         try:
-            fails, _ = run_case(case)
+            fails, _ = run_case(case, attribute="always")
         except Drop:
             return None
         if not fails:
@@ -690,7 +722,7 @@ class C12(Check):
                 return []
         best = shrink_graph_case(case, lambda c: want in kinds(c), 150 if tier == "quick" else 1000)
         try:
-            fails, _ = run_case(best)
+            fails, _ = run_case(best, attribute="always")
         except Drop:
             return failure
         for b, d in fails:
